@@ -192,7 +192,7 @@ func genC14(t *rapid.T) c14Case {
 				q.Hostname = pick(t, "fh", []string{"example.org", "a.com", hostColliders[0][0]})
 			} else {
 				// URLs in which a rule's window occurs several times
-				q.URL = pick(t, "fu", c01FixedURLs)
+				q.URL = pick(t, "fu", append([]string{"http://x.com/adsa6/adsgp", "http://x.com/adsa6/banner_ad", "http://x.com/adsa6?adsgp=/banner_ad"}, c01FixedURLs...))
 			}
 		}
 		c.Queries = append(c.Queries, q)
